@@ -1,5 +1,5 @@
 import Model
-import Generated
+import Generated.Facts
 
 /-
   Facts regenerated from jtp/jtp.go, client/client.go and pub/collection.go on every run, tied to
